@@ -50,8 +50,10 @@ def _resolve_aref(workchain, world, aref, plumpy):
 def _make_wc_step(name, spec, world, plumpy):
     def fn(self):
         _ensure_ctx(self)
+        pending = sorted(f'fut{k}' for k, f in world.futures.items() if not f.done())
+        pending += sorted(label(c) for c in world.children if not c.has_terminated())
         world.rec('wstep', label(self), name, ctx_view(self), self.paused, self.status,
-                  plumpy.Process.current() is self)
+                  plumpy.Process.current() is self, pending)
         self.ctx.simtrace.append(name)
         world.site(self, f'step:{name}')
         awaited = {}
